@@ -386,7 +386,18 @@ template <class D> void add_common_ops(ObjHarness<D>& H) {
       return b2s(b); }; } });
   if constexpr (K != PROD) {
   H.add({ "simplify_using_context_assign", 2, F_ANS | F_FAULT | F_SAMEDIM, 3, NOGEN,
-    PREPF { D* x = e.o[0]; const D* y = e.o[1]; return [x, y]() { return b2s(x->simplify_using_context_assign(*y)); }; } });
+    PREPF { D* x = e.o[0]; const D* y = e.o[1]; return [x, y]() {
+              // documented: a meet-preserving enlargement of *this using y as context (and false iff the meet is empty)
+              Bits px = defbits(*x), py = defbits(*y); bool aliased = (x == y);
+              bool b = x->simplify_using_context_assign(*y);
+              if (g_def.active && !aliased && !px.empty()) { FaultPause fp; Bits post = defbits(*x);
+                DefSuffix sfx(!b, "meet-empty");    // (class suffix: the call answered that the meet is empty)
+                for (size_t i = 0; i < post.size() && i < py.size() && i < px.size(); ++i) {
+                  if (py[i] && post[i] != px[i]) { def_violation("simplify-changes-meet", "point " + probe_str(x->space_dimension(), i) + " of the context " + (px[i] ? "is lost" : "is gained")); break; }
+                  if (K != PSET && px[i] && !post[i]) { def_violation("simplify-not-an-enlargement", "point " + probe_str(x->space_dimension(), i) + " of the simplified element is lost"); break; } }
+                bool meet = false; for (size_t i = 0; i < px.size() && i < py.size(); ++i) if (px[i] && py[i]) meet = true;
+                if (meet && !b) def_violation("simplify-answer", "false returned although a probe point lies in both arguments"); }
+              return b2s(b); }; } });
   }
   if constexpr (K == SHAPE || K == BOX) {
   // constructors from a closed polyhedron (given by constraints or by generators) at each complexity class:
